@@ -81,7 +81,10 @@ Fixpoint clock_estimates (xs : list timed) (obs : list (list call * option Q)) :
   end.
 
 (** harness encodings: the code's float against the exact value, relative tolerance 1e-9 *)
-Definition q_close (m o : Q) : bool := Qle_bool (Qabs (m - o) * (1000000000 # 1)) (Qabs m).
+(*   |m - o| <= 1e-9 |m|  with m = a/b, o = c/d  <=>  |a d - c b| * 10^9 <= |a| d   (only big-by-small products) *)
+Definition q_close (m o : Q) : bool :=
+  let a := Qnum m in let b := Z.pos (Qden m) in let c := Qnum o in let d := Z.pos (Qden o) in
+  Z.abs (a * d - c * b) * 1000000000 <=? Z.abs a * d.
 Definition est_close (o m : option Q) : bool :=
   match o, m with
   | None, None => true
@@ -96,8 +99,29 @@ Fixpoint prefix_ok {A B} (ok : A -> B -> bool) (obs : list A) (model : list B) :
   | _ :: _, [] => false
   end.
 
-Definition midi_in_timed_ok (unit : Z) (has_target : bool) (xs : list timed)
-           (per_msg : list (list Z)) (tempos : list (option Q)) : bool :=
-  let r := cb_run unit has_target ts0 xs in
-  list_eqb (list_eqb Z.eqb) (map (fun p => map call_code (fst p)) r) per_msg
-  && prefix_ok est_close tempos (clock_estimates xs r).
+(** flat encodings (nested list literals are slow to elaborate): the calls of one message as one number in base 5;
+    instants and messages as two lists; the observed floats as [num; k] pairs meaning num / 2^k, k < 0 for None *)
+Definition enc_calls (l : list call) : Z := fold_left (fun v c => v * 5 + (call_code c + 1)) l 0.
+Fixpoint mk_timed (intra : Z) (ts : list Z) (ms : list msg) : list timed :=
+  match ts, ms with
+  | t :: tr, m :: mr => TM t (t + intra) m :: mk_timed intra tr mr
+  | _, _ => []
+  end.
+Fixpoint dec_tempos (l : list Z) : list (option Q) :=
+  match l with
+  | n :: k :: r => (if k <? 0 then None else Some (Qmake n (Pos.shiftl 1 (Z.to_N k)))) :: dec_tempos r
+  | _ => []
+  end.
+
+(** per message the calls (whole sequence; by `cb_run_calls` these ARE the calls of `cb_run`) and, on the first k
+    messages, the estimates after each 'clock' (the exact rationals grow by about 10 + log2 dt bits per clock message:
+    the harness bounds k so that they stay below ~1500 bits) *)
+Definition midi_in_timed_ok (unit : Z) (has_target : bool) (intra : Z) (ts : list Z) (ms : list msg) (k : nat)
+           (per_msg : list Z) (tempos : list Z) : bool :=
+  let xs := mk_timed intra ts ms in
+  let pre := firstn k xs in
+  let r := cb_run unit has_target ts0 pre in
+  (List.length ts =? List.length ms)%nat
+  && list_eqb Z.eqb (map (fun m => enc_calls (target_calls has_target m)) (map msg_of xs)) per_msg
+  && list_eqb Z.eqb (map (fun p => enc_calls (fst p)) r) (firstn k per_msg)
+  && prefix_ok est_close (dec_tempos tempos) (clock_estimates pre r).
